@@ -270,7 +270,7 @@ impl Gen {
             0 => { let k = self.key(); let v = self.val(); Op::Ins(k, v) }
             1 => Op::Rem(self.key()),
             2 => Op::Get(self.key()),
-            3 => Op::Retain(match self.rng.below(5) { 0 => Pred::KeyNe(self.key()), 1 => Pred::KeyLt(self.key()), 2 => Pred::ValNe(self.rng.range(1, 6)), 3 => Pred::All, _ => Pred::None }),
+            3 => Op::Retain(match self.rng.below(5) { 0 => Pred::KeyNe(self.key()), 1 => Pred::KeyLt(self.key()), 2 => { let lo = self.next_val.saturating_sub(4).max(101); Pred::ValNe(self.rng.range(lo.min(self.next_val.max(101)), self.next_val.max(101))) } 3 => Pred::All, _ => Pred::None }),
             4 => Op::Replace(self.map()),
             5 => Op::Len,
             _ => Op::Iter,
